@@ -79,3 +79,26 @@ Definition representable_adf (p : pic) : Prop :=
   all_pic_cells (cell8_page0 Ice) p /\
   length (p_pal p) = 16%nat /\ Forall six_bit (p_pal p) /\
   (exists f, get_font (p_fonts p) 0 = Some f /\ font_wf 16 f).
+
+(* XBin (uncompressed data): width 1..4096, height up to 65535 (two header bytes each), any mode (Unlimited is written
+   like Blink), 16 six-bit colours, and either
+   - one font page (0) with a 256-glyph font of height 1..32 (a font that calls itself the default font must be it:
+     the writer then omits the font block), or
+   - exactly the font pages 0 and 1 with two fonts of the same height; attribute bit 3 then selects the page, so the
+     displayed foreground must be below 8 (fg < 8, not bold). *)
+Definition xb_common (p : pic) : Prop :=
+  rect p /\ 1 <= p_w p <= 4096 /\ p_h p <= 65535 /\ length (p_pal p) = 16%nat /\ Forall six_bit (p_pal p).
+
+Definition representable_xb1 (p : pic) : Prop :=
+  xb_common p /\ all_pic_cells (cell8_page0 (p_ice p)) p /\
+  exists f, get_font (p_fonts p) 0 = Some f /\ font_wf (f_h f) f /\ (1 <= f_h f <= 32)%N /\
+            (f_default f = true -> same_font f default_font).
+
+Definition cell8_two_fonts (m : IceMode) (c : cell) : Prop :=
+  cell8 m c /\ (foreground_color (c_attr c) < 8)%N /\ is_bold (c_attr c) = false /\
+  (font_page (c_attr c) = 0%N \/ font_page (c_attr c) = 1%N).
+
+Definition representable_xb2 (p : pic) : Prop :=
+  xb_common p /\ used_pages (p_rows p) = [0%N; 1%N] /\ all_pic_cells (cell8_two_fonts (p_ice p)) p /\
+  exists f0 f1 h, get_font (p_fonts p) 0 = Some f0 /\ get_font (p_fonts p) 1 = Some f1 /\
+                  font_wf h f0 /\ font_wf h f1 /\ (1 <= h <= 32)%N.
